@@ -212,7 +212,7 @@ def gen_bias(rng, name, req, m_now):
             r = rng.random()
             if r < 0.7:
                 return {'function': 'linear', 'params': {'a': rng.choice([0, PU // 4, PU // 2, PU]), 'b': rng.choice([0, 0, PU // 8])}}
-            return {'function': 'expFromZero', 'params': {'alpha': rng.choice([PU // 2, PU]), 'multiplier': rng.choice([0, PU // 2, PU])}}
+            return {'function': 'expFromZero', 'params': {'alpha': rng.choice([PU // 2, PU, -PU, -2 * PU]), 'multiplier': rng.choice([0, PU // 2, PU, -(PU // 2), -PU])}}
         p['loss'] = fun()
         p['gain'] = fun()
         p['referencePoints'] = {'function': rng.choice(['ideal', 'nadir'])}
